@@ -552,6 +552,12 @@ func runC06Assign(c *Ctx) {
 					}
 				}
 			})
+			// every return an AnyType argument can reach yields true
+			for _, ret := range anyPathReturns(fn, fn.Params[1]) {
+				if k, ok := ret.Results[0].(*ssa.Const); !ok || k.Value == nil || k.Value.String() != "true" {
+					okAny = false
+				}
+			}
 			if okAny {
 				c.ok(construct, fn.Pos(), "the case for AnyType returns true")
 			} else {
@@ -573,7 +579,22 @@ func runC06Assign(c *Ctx) {
 					okDefault = true
 				}
 			}
-			if okDefault {
+			// ... and that outcome is the one an AnyType argument takes: every return reachable with an argument of type
+			// any yields AnyType (or hands the argument back)
+			anyKept := ""
+			for _, ret := range anyPathReturns(fn, fn.Params[1]) {
+				r := ret.Results[0]
+				if mi, ok := r.(*ssa.MakeInterface); ok && typeStr(mi.X.Type()) == "AnyType" {
+					continue
+				}
+				if r == ssa.Value(fn.Params[1]) {
+					continue
+				}
+				anyKept = p.Pos(ret.Pos())
+			}
+			if okDefault && anyKept != "" {
+				c.bad(construct, fn.Pos(), "merging with a value of type any yields a specific type (return at "+anyKept+"): replacing a type by any makes the merged type more specific, and uses the other type allowed are reported")
+			} else if okDefault {
 				c.ok(construct, fn.Pos(), "some outcome (conflict/default) yields AnyType")
 			} else {
 				c.bad(construct, fn.Pos(), "no outcome of Merge yields AnyType: conflicting types are not widened to any")
